@@ -15,7 +15,9 @@ RULE = ('streams over a 7-chemical package (3 volatile, 2 gas-locked, 2 liquid/s
         'stub stream: VLE._solve_v_fixed_point, flx.IQ_interpolation, BubblePoint.solve_Py/Ty, DewPoint.solve_Px/Tx, mixture.xH/xS/H/S/xsolve_T_at_HP/SP replaced '
         'from the harness by seeded table stubs incl. adversarial outputs (raw v outside [0, mol], bubble/dew on either side of the specification, f outside [0,1]); '
         'real stream: database mixtures with the real solvers, every oracle output recorded and replayed through the model; LLE.__call__ write-back with stubbed '
-        'solver / phase_fraction (fresh and cached branch, top_chemical swap); SLE._update_solubility, given-solubility call and single-chemical T branch. '
+        'solver / phase_fraction (fresh and cached branch, top_chemical swap); SLE._update_solubility, given-solubility call and single-chemical T branch; '
+        'Stream.vlle with every VLE / LLE solver stubbed and flx.fixed_point replaced by plain iteration a seeded number of times (whole L/g/l array, T, P or the raise). '
+        'Not compared (counted): calls in which a real solver itself raised; exact ties decided by float rounding are kept out of the generators. '
         'Compared: the whole phase x chemical array, T, P, exception class, state at the raise, number of oracle calls (values 1e-9 relative, structure exact). '
         'non-trivial = the call changed the phase x chemical array or raised after mutating; distinct = distinct case hash')
 ASSUMPTIONS = ['float rounding, nan/inf are not modelled (values compared to 1e-9 relative)',
@@ -440,6 +442,13 @@ def run_vle(case):
     return out
 
 # ------------------------------------------------------------------ implementation side: LLE / SLE
+def distinct_factors(fs):
+    """a split proportional to the feed makes the top_chemical comparison C_L < C_l an exact tie that float rounding decides;
+    the stub never returns one"""
+    if len(fs) > 1 and len(set(fs)) == 1:
+        fs = [0.5 if fs[0] != 0.5 else 0.25] + list(fs[1:])
+    return fs
+
 def run_lle(case):
     e = env(); tmo = e['tmo']; lm = e['lm']
     s = tmo.MultiStream(None, T=298.15, P=101325., phases='lL', thermo=e['thermo2'])
@@ -450,7 +459,8 @@ def run_lle(case):
     p = Patches()
     calls = []
     def solver(self, mol, T, lle_chemicals, single_loop):
-        r = np.array([m * rec.draw([0., 0.25, 0.5, 0.75, 1., 1.25, -0.25]) for m in mol], float)
+        fs = distinct_factors([rec.draw([0., 0.25, 0.5, 0.75, 1., 1.25, -0.25]) for m in mol])
+        r = np.array([m * f for m, f in zip(mol, fs)], float)
         calls.append(['solve', fl(r)]); return r
     def pf(z, K, phi):
         r = rec.draw([0., 0.25, 0.5, 0.75, 1., 1.5, -0.25, 0.999])
@@ -536,7 +546,8 @@ def run_vlle(case):
         finally:
             lsegs.append([list(c) for c in lcalls])
     def solver(self, mol, T, lle_chemicals, single_loop):
-        r = np.array([m * rec.draw([0., 0.25, 0.5, 0.75, 1.]) for m in mol], float)
+        fs = distinct_factors([rec.draw([0., 0.25, 0.5, 0.75, 1.]) for m in mol])
+        r = np.array([m * f for m, f in zip(mol, fs)], float)
         lcalls.append(['solve', fl(r)]); return r
     def pf(z, K, phi):
         r = rec.draw([0., 0.25, 0.5, 0.75, 1., 0.999])
@@ -657,7 +668,7 @@ def lo_term(calls, top=None):
 
 def coq_vlle(case, out):
     e = env()
-    if out['raised']:
+    if out['raised'] and out['raised'] not in ('FloatingPointError', 'ZeroDivisionError'):
         raise ValueError('vlle raised ' + out['raised'])
     c2 = dict(case, mode='stub', sk='TP')
     def vo(seg):
@@ -675,7 +686,10 @@ def coq_vlle(case, out):
     init = f'(mkv3 {qlist(case["L"])} {qlist(case["g"])} {qlist(case["l"])} {q(298.15)} {q(101325.)})'
     f = out['final']
     exp = f'(mkv3 {qlist(f["L"])} {qlist(f["g"])} {qlist(f["l"])} {q(f["T"])} {q(f["P"])})'
-    return (f'(vlle_check (vlle {cfg_term()} {clist(islle, cbool)} {vo0} {lo0} {clist(steps)} {q(case["T"])} {q(case["P"])} {init}) {exp})')
+    call = f'(vlle {cfg_term()} {clist(islle, cbool)} {vo0} {lo0} {clist(steps)} {q(case["T"])} {q(case["P"])} {init})'
+    if out['raised']:
+        return f'(vlle_check_err {call})'
+    return f'(vlle_check {call} {exp})'
 
 def coq_case(case, out):
     if case['kind'] == 'vlle': return coq_vlle(case, out)
@@ -704,7 +718,7 @@ def nontrivial(case, out):
 
 def classify(case, out):
     if case['kind'] == 'vlle':
-        return [f'vlle:vle-calls={len(out["vsegs"])}:lle-calls={len(out["lsegs"])}']
+        return [f'vlle:vle-calls={len(out["vsegs"])}:lle-calls={len(out["lsegs"])}' + (':raised' if out['raised'] else '')]
     if case['kind'] == 'vle':
         ks = [f'vle:{case["mode"]}:{case["sk"]}', f'N:{out.get("N")}', 'raised:' + str(out['raised'])]
         if any(e[2] is None for e in out['events']): return ks + ['oracle-raised (not compared)']
